@@ -189,6 +189,11 @@ func (vc *VC) oblige(st *State, kind, tag string, cond Term, descr string) {
 			NDecl: len(vc.decls), NAxiom: len(vc.axioms), Descr: descr, Fn: vc.key,
 		})
 	}
+	// obligations at the end of a path are independent of each other: a failing postcondition
+	// (e.g. a listed known finding) must not make the ones after it vacuous
+	if vc.G != nil && vc.G.knownOpen[stripOrdinal(vc.key+"#"+name)] {
+		return
+	}
 	vc.assume(st, cond)
 }
 
